@@ -24,6 +24,14 @@ type ufac struct {
 	holder   map[string]any
 	dup      map[string]bool // groupings used twice
 	features []string
+	noDup    bool // no second use of a grouping
+	noScoped bool // no groupings defined inside data nodes
+	// steering of the next group() call (a chain of scoped groupings of one name through a module-level grouping)
+	want       map[string]any // a child that must be among the nodes moved
+	wantScoped *bool          // scoped or not, instead of by chance
+	chainNode  map[string]any // the node the last scoped grouping was defined in
+	lastUse    map[string]any // the uses statement the last group() call wrote
+	lastParent map[string]any
 }
 
 func findByName(kids []any, name string) map[string]any {
@@ -109,8 +117,25 @@ func (u *ufac) group(parent map[string]any, kidsKey string, depth int, forceB bo
 	}
 	i := lo + r.Intn(len(kids)-lo)
 	j := i + 1 + r.Intn(len(kids)-i)
+	steered := u.want != nil
+	wantScoped := u.wantScoped
+	u.wantScoped = nil
+	if steered {
+		w := -1
+		for x, k := range kids {
+			if fmt.Sprintf("%p", k) == fmt.Sprintf("%p", u.want) {
+				w = x
+			}
+		}
+		u.want = nil
+		if w < lo {
+			return
+		}
+		i = lo + r.Intn(w-lo+1)
+		j = w + 1 + r.Intn(len(kids)-w)
+	}
 	for _, k := range kids[i:j] {
-		if cstr(k.(map[string]any), "k") == "uses" && r.Chance(50) {
+		if cstr(k.(map[string]any), "k") == "uses" && ((!steered && r.Chance(50)) || cbool(k.(map[string]any), "_scopedUse")) {
 			return
 		}
 	}
@@ -119,10 +144,21 @@ func (u *ufac) group(parent map[string]any, kidsKey string, depth int, forceB bo
 	gname := fmt.Sprintf("g%d", u.n)
 	use := map[string]any{"k": "uses", "n": "uses-" + gname, "g": gname}
 	inB := r.Chance(30) || forceB
+	// a grouping defined in the body of the node that uses it (a scoped grouping): its name may be taken again
+	// in the body of a sibling, but not above or below
+	scopedIn := ""
+	if pk := cstr(parent, "k"); !forceB && depth == 0 && !u.noScoped && (pk == "container" || pk == "list") &&
+		!cbool(parent, "_inb") && ((wantScoped == nil && r.Chance(u.scopedChance())) || (wantScoped != nil && *wantScoped)) {
+		scopedIn = cstr(parent, "n")
+		inB = false
+	}
 	for _, k := range moved { // a grouping of module b cannot use groupings or features of m
-		if !forceB && (hasUses(k.(map[string]any), "m") || hasIff(k.(map[string]any))) {
+		if !forceB && (hasUses(k.(map[string]any), "m") || hasIff(k.(map[string]any)) || hasMWhen(k.(map[string]any))) {
 			inB = false
 		}
+	}
+	if scopedIn != "" && inB {
+		scopedIn = ""
 	}
 	// refines
 	var cands []astRef
@@ -255,6 +291,11 @@ func (u *ufac) group(parent map[string]any, kidsKey string, depth int, forceB bo
 			}
 			taken := append([]any{}, nk[cut:]...)
 			ok := true
+			for _, tk := range taken {
+				if cbool(tk.(map[string]any), "_scopedUse") {
+					ok = false
+				}
+			}
 			// a uses among the nodes the augment adds ("uses inside an augment inside a uses") is written in the
 			// using module whatever module the outer grouping comes from
 			// a refine must not point into what the augment is about to add
@@ -276,7 +317,7 @@ func (u *ufac) group(parent map[string]any, kidsKey string, depth int, forceB bo
 				c.node["kids"] = nk[:cut]
 				ag := map[string]any{"path": toAny(c.path), "kids": taken}
 				if r.Chance(40) {
-					if w := u.pickWhen(taken); w != "" {
+					if w := u.pickWhen(taken, !forceB); w != "" {
 						ag["when"] = w
 					}
 				}
@@ -315,8 +356,25 @@ func (u *ufac) group(parent map[string]any, kidsKey string, depth int, forceB bo
 		use["iff"] = fl
 	}
 	g := map[string]any{"n": gname, "kids": moved}
+	if scopedIn != "" {
+		tn := u.scopedName(parent)
+		g["scope"] = scopedIn
+		g["tn"] = tn
+		use["tg"] = tn
+		use["_scopedUse"] = true
+		parent["_sg"] = append(carr(parent, "_sg"), tn)
+		u.chainNode = parent
+	}
+	u.lastUse, u.lastParent = use, parent
 	whenLater := !forceB && !dupInside && r.Chance(25)
 	if inB {
+		// the status, description and reference of a grouping are the grouping's (another module's may be deprecated)
+		if r.Chance(40) {
+			g["gstatus"] = pick(r, []string{"deprecated", "obsolete", "current"})
+		}
+		if r.Chance(30) {
+			g["gdesc"] = true
+		}
 		use["g"] = "b:" + gname
 		for _, k := range moved {
 			markInB(k.(map[string]any))
@@ -326,7 +384,7 @@ func (u *ufac) group(parent map[string]any, kidsKey string, depth int, forceB bo
 		u.mGroup = append(u.mGroup, g)
 	}
 	if whenLater {
-		if w := u.pickWhen(moved); w != "" {
+		if w := u.pickWhen(moved, true); w != "" {
 			use["when"] = w
 		}
 	}
@@ -336,7 +394,7 @@ func (u *ufac) group(parent map[string]any, kidsKey string, depth int, forceB bo
 	parent[kidsKey] = nk
 	// a second use of the same grouping somewhere else, without the refines and augments of the first:
 	// the inline module gets a copy of the grouping body as it is now
-	if !forceB && r.Chance(30) {
+	if !forceB && !u.noDup && scopedIn == "" && r.Chance(30) {
 		clean := true
 		for _, k := range moved {
 			if anyUses(k.(map[string]any)) {
@@ -366,6 +424,104 @@ func (u *ufac) group(parent map[string]any, kidsKey string, depth int, forceB bo
 	// factor further inside the grouping
 	if depth < 2 && r.Chance(40) {
 		u.group(g, "kids", depth+1, inB)
+	}
+}
+
+// more often once there is one: two scopes are what it takes for a name to be taken twice
+func (u *ufac) scopedChance() int {
+	for _, g := range u.mGroup {
+		if cstr(g.(map[string]any), "scope") != "" {
+			return 90
+		}
+	}
+	return 50
+}
+
+// the text name of a new grouping scoped to `parent`: the first of sg1, sg2, ... that no scope lexically above or
+// below `parent` (or `parent` itself) defines.  Lexically: the body of a grouping scoped to a node lies inside that node.
+// what is written in the body of a node: its children, and for a uses the nodes its augments add
+func lexKids(n map[string]any) []any {
+	out := append([]any{}, carr(n, "kids")...)
+	for _, a := range carr(n, "augments") {
+		out = append(out, carr(a.(map[string]any), "kids")...)
+	}
+	return out
+}
+
+func (u *ufac) scopedName(parent map[string]any) string {
+	taken := map[string]bool{}
+	all := append(append([]any{}, u.mGroup...), u.bGroup...)
+	scopedTo := func(name string) []map[string]any {
+		var out []map[string]any
+		for _, g := range all {
+			if gm := g.(map[string]any); cstr(gm, "scope") == name {
+				out = append(out, gm)
+			}
+		}
+		return out
+	}
+	var below func(n map[string]any)
+	below = func(n map[string]any) {
+		for _, t := range carr(n, "_sg") {
+			taken[t.(string)] = true
+		}
+		for _, g := range scopedTo(cstr(n, "n")) {
+			for _, k := range carr(g, "kids") {
+				below(k.(map[string]any))
+			}
+		}
+		for _, k := range lexKids(n) {
+			below(k.(map[string]any))
+		}
+	}
+	below(parent)
+	// upwards: the path from the root that holds the node; from a scoped grouping on to the node it is scoped to
+	var path func(n, target map[string]any) bool
+	path = func(n, target map[string]any) bool {
+		if cstr(n, "n") == cstr(target, "n") && cstr(n, "k") == cstr(target, "k") {
+			return true
+		}
+		for _, k := range lexKids(n) {
+			if path(k.(map[string]any), target) {
+				for _, t := range carr(n, "_sg") {
+					taken[t.(string)] = true
+				}
+				return true
+			}
+		}
+		return false
+	}
+	cur := parent
+	for hops := 0; hops < 50 && cur != nil; hops++ {
+		if path(u.holder, cur) {
+			break
+		}
+		var next map[string]any
+		for _, g := range all {
+			gm := g.(map[string]any)
+			if path(gm, cur) {
+				if sc := cstr(gm, "scope"); sc != "" {
+					var found []map[string]any
+					findAllByName(carr(u.holder, "kids"), sc, &found)
+					for _, g2 := range all {
+						findAllByName(carr(g2.(map[string]any), "kids"), sc, &found)
+					}
+					if len(found) > 0 {
+						next = found[0]
+						for _, t := range carr(next, "_sg") {
+							taken[t.(string)] = true
+						}
+					}
+				}
+				break
+			}
+		}
+		cur = next
+	}
+	for k := 1; ; k++ {
+		if nm := fmt.Sprintf("sg%d", k); !taken[nm] {
+			return nm
+		}
 	}
 }
 
@@ -471,6 +627,30 @@ func markInB(n map[string]any) {
 	}
 }
 
+// a `when` on a uses (or on an augment under it) that mentions the prefix m can only be written where m is known
+func hasMWhen(n map[string]any) bool {
+	if strings.Contains(cstr(n, "when"), "m:") {
+		return true
+	}
+	for _, a := range carr(n, "augments") {
+		am := a.(map[string]any)
+		if strings.Contains(cstr(am, "when"), "m:") {
+			return true
+		}
+		for _, k := range carr(am, "kids") {
+			if hasMWhen(k.(map[string]any)) {
+				return true
+			}
+		}
+	}
+	for _, k := range carr(n, "kids") {
+		if hasMWhen(k.(map[string]any)) {
+			return true
+		}
+	}
+	return false
+}
+
 func hasIff(n map[string]any) bool {
 	if len(carr(n, "iff")) > 0 {
 		return true
@@ -573,6 +753,28 @@ func (u *ufac) augment(body []any) {
 		}
 	}
 	t.node["kids"] = kids[:cut]
+	// a case with one data definition may be written as that definition alone (the case then takes its name)
+	if cstr(t.node, "k") == "choice" {
+		for _, k := range taken {
+			kn := k.(map[string]any)
+			ck := carr(kn, "kids")
+			if cstr(kn, "k") != "case" || len(ck) != 1 || cstr(t.node, "dflt") == cstr(kn, "n") || !r.Chance(60) {
+				continue
+			}
+			only := ck[0].(map[string]any)
+			if kk := cstr(only, "k"); kk != "container" && kk != "leaf" && kk != "leaf-list" && kk != "list" {
+				continue
+			}
+			if len(carr(kn, "iff")) > 0 || len(carr(kn, "whens")) > 0 || kn["status"] != nil {
+				continue // the implicit case has no substatements of its own
+			}
+			if pn := findByName(u.plain, cstr(kn, "n")); pn != nil && cstr(pn, "k") == "case" {
+				pn["n"] = cstr(only, "n")
+				kn["n"] = cstr(only, "n")
+				kn["_shorthand"] = true
+			}
+		}
+	}
 	for _, e := range t.path {
 		if pn := findByName(body, e); pn != nil {
 			pn["_pinned"] = true
@@ -585,7 +787,13 @@ func (u *ufac) augment(body []any) {
 			dupInside = true
 		}
 	}
-	if len(u.features) > 0 && r.Chance(20) && !cross && !dupInside {
+	short := false // an if-feature on the augment lands on the node, not on its implicit case: not modelled
+	for _, k := range taken {
+		if cbool(k.(map[string]any), "_shorthand") {
+			short = true
+		}
+	}
+	if len(u.features) > 0 && r.Chance(20) && !cross && !dupInside && !short {
 		var fl []any
 		for _, f := range u.pickIffs(r) {
 			fl = append(fl, f)
@@ -597,7 +805,7 @@ func (u *ufac) augment(body []any) {
 		a["iff"] = fl
 	}
 	if !dupInside && r.Chance(25) {
-		if w := u.pickWhen(taken); w != "" {
+		if w := u.pickWhen(taken, true); w != "" {
 			a["when"] = w
 		}
 	}
@@ -611,7 +819,77 @@ func (u *ufac) augment(body []any) {
 	}
 }
 
+// two definitions of one name among the children of a node: a clash the factored module inherits by construction
+// (two uses that bring the same grouping); such a case says nothing about the expansion
+func dupSiblings(kids []any) bool {
+	seen := map[string]bool{}
+	for _, k := range kids {
+		kn := k.(map[string]any)
+		if seen[cstr(kn, "n")] {
+			return true
+		}
+		seen[cstr(kn, "n")] = true
+		if dupSiblings(carr(kn, "kids")) {
+			return true
+		}
+	}
+	return false
+}
+
+// a grouping scoped to a node under the name of one scoped to a node around it (however the two came to lie
+// inside each other): refused by every YANG parser, and not what the case is about
+func shadowing(c Case) bool {
+	all := append(append([]any{}, carr(c, "mgroupings")...), carr(c, "bgroupings")...)
+	bad := false
+	var walk func(n map[string]any, names map[string]bool)
+	walk = func(n map[string]any, names map[string]bool) {
+		mine := names
+		if sg := carr(n, "_sg"); len(sg) > 0 {
+			mine = map[string]bool{}
+			for k := range names {
+				mine[k] = true
+			}
+			for _, t := range sg {
+				if mine[t.(string)] {
+					bad = true
+				}
+				mine[t.(string)] = true
+			}
+		}
+		for _, g := range all {
+			if gm := g.(map[string]any); cstr(gm, "scope") != "" && cstr(gm, "scope") == cstr(n, "n") {
+				for _, k := range carr(gm, "kids") {
+					walk(k.(map[string]any), mine)
+				}
+			}
+		}
+		for _, k := range lexKids(n) {
+			walk(k.(map[string]any), mine)
+		}
+	}
+	for _, k := range carr(c, "body") {
+		walk(k.(map[string]any), map[string]bool{})
+	}
+	for _, g := range all {
+		if gm := g.(map[string]any); cstr(gm, "scope") == "" {
+			for _, k := range carr(gm, "kids") {
+				walk(k.(map[string]any), map[string]bool{})
+			}
+		}
+	}
+	return bad
+}
+
 func genYUsesCase(r *Rng, tier string) Case {
+	for {
+		c := genYUsesCase1(r, tier)
+		if !dupSiblings(carr(c, "plain")) && !shadowing(c) {
+			return c
+		}
+	}
+}
+
+func genYUsesCase1(r *Rng, tier string) Case {
 	g := &sgen{r: r, forData: true, maxDepth: 2 + r.Intn(2)}
 	if tier == "thorough" {
 		g.maxDepth = 2 + r.Intn(3)
@@ -649,6 +927,52 @@ func genYUsesCase(r *Rng, tier string) Case {
 		}
 		u.group(target, "kids", 0, cbool(target, "_inb"))
 	}
+	// now and then: the node a scoped grouping was defined in goes into a module-level grouping, and the uses of
+	// that one into another scoped grouping one level up (which takes the same name: the two scopes are unrelated)
+	if u.chainNode != nil && r.Chance(70) {
+		var x map[string]any
+		var find func(n map[string]any)
+		find = func(n map[string]any) {
+			for _, k := range carr(n, "kids") {
+				km := k.(map[string]any)
+				if fmt.Sprintf("%p", km) == fmt.Sprintf("%p", u.chainNode) {
+					x = n
+				}
+				find(km)
+			}
+		}
+		find(holder)
+		if x == nil && r.Chance(60) {
+			for _, k := range carr(holder, "kids") { // the node stands at the top of the module
+				if fmt.Sprintf("%p", k) == fmt.Sprintf("%p", u.chainNode) {
+					x = holder
+				}
+			}
+		}
+		if x != nil && r.Chance(50) {
+			// ... or a sibling of that node defines a grouping of its own (it takes the same name)
+			yes := true
+			for _, k := range carr(x, "kids") {
+				km := k.(map[string]any)
+				if kk := cstr(km, "k"); (kk == "container" || kk == "list") && fmt.Sprintf("%p", km) != fmt.Sprintf("%p", u.chainNode) &&
+					len(carr(km, "_sg")) == 0 && !cbool(km, "_inb") {
+					u.wantScoped = &yes
+					u.group(km, "kids", 0, false)
+					u.wantScoped = nil
+					break
+				}
+			}
+		} else if x != nil && (cstr(x, "k") == "container" || cstr(x, "k") == "list") && !cbool(x, "_inb") {
+			no, yes := false, true
+			u.want, u.wantScoped, u.lastUse = u.chainNode, &no, nil
+			u.group(x, "kids", 0, false)
+			if u.lastUse != nil && fmt.Sprintf("%p", u.lastParent) == fmt.Sprintf("%p", x) && cstr(u.lastUse, "tg") == "" {
+				u.want, u.wantScoped = u.lastUse, &yes
+				u.group(x, "kids", 0, false)
+			}
+			u.want, u.wantScoped = nil, nil
+		}
+	}
 	na := r.Intn(3)
 	for i := 0; i < na; i++ {
 		u.augment(carr(holder, "kids"))
@@ -656,6 +980,30 @@ func genYUsesCase(r *Rng, tier string) Case {
 	var a2 []any
 	for n := range u.a2names {
 		a2 = append(a2, n)
+	}
+	// a grouping of module b that another grouping of b uses keeps the default status (a current definition may
+	// not refer to a deprecated one of its own module)
+	usedInB := map[string]bool{}
+	var scan func(kids []any)
+	scan = func(kids []any) {
+		for _, k := range kids {
+			kn := k.(map[string]any)
+			if cstr(kn, "k") == "uses" {
+				usedInB[strings.TrimPrefix(cstr(kn, "g"), "b:")] = true
+				for _, a := range carr(kn, "augments") {
+					scan(carr(a.(map[string]any), "kids"))
+				}
+			}
+			scan(carr(kn, "kids"))
+		}
+	}
+	for _, g := range u.bGroup {
+		scan(carr(g.(map[string]any), "kids"))
+	}
+	for _, g := range u.bGroup {
+		if gm := g.(map[string]any); usedInB[cstr(gm, "n")] {
+			delete(gm, "gstatus")
+		}
 	}
 	return Case{"k": "yuses", "plain": u.plain, "body": carr(holder, "kids"), "mgroupings": u.mGroup, "bgroupings": u.bGroup,
 		"maugments": u.mAug, "aaugments": u.aAug, "a2names": a2, "features": feats, "enabled": enabled}
@@ -690,7 +1038,7 @@ func (u *ufac) introduced(kids []any, out *[]string, depth int) {
 
 // a `when` for a uses / augment that introduces `kids`: written on every node introduced in the inline module
 // (a node takes one `when` only); "" when some node has one already
-func (u *ufac) pickWhen(kids []any) string {
+func (u *ufac) pickWhen(kids []any, inM bool) string {
 	var names []string
 	u.introduced(kids, &names, 0)
 	if len(names) == 0 {
@@ -706,6 +1054,11 @@ func (u *ufac) pickWhen(kids []any) string {
 		all = append(all, ns[0])
 	}
 	w := pick(u.r, whenExprs)
+	if inM && u.r.Chance(50) {
+		// written in a module that knows the prefix m (m itself, or a2 which imports it): the nodes the expression
+		// ends up on may come from a grouping of module b, which does not
+		w = pick(u.r, []string{"count(../m:f1) >= 0", "m:zz or true()", "not(../m:k = 'no')"})
+	}
 	for _, pn := range all {
 		pn["whens"] = []any{w}
 	}
@@ -751,10 +1104,14 @@ func renderUses(b *strings.Builder, n map[string]any, ind string) {
 		}
 		body.WriteString(ind + "  }\n")
 	}
+	gn := cstr(n, "g")
+	if t := cstr(n, "tg"); t != "" {
+		gn = t
+	}
 	if body.Len() == 0 {
-		b.WriteString(ind + "uses " + cstr(n, "g") + ";\n")
+		b.WriteString(ind + "uses " + gn + ";\n")
 	} else {
-		b.WriteString(ind + "uses " + cstr(n, "g") + " {\n" + body.String() + ind + "}\n")
+		b.WriteString(ind + "uses " + gn + " {\n" + body.String() + ind + "}\n")
 	}
 }
 
@@ -766,6 +1123,10 @@ func renderAny(b *strings.Builder, n map[string]any, ind string) {
 	}
 	if !containsUses(n) {
 		renderNode(b, n, ind)
+		return
+	}
+	if cstr(n, "k") == "case" && cbool(n, "_shorthand") {
+		renderAny(b, carr(n, "kids")[0].(map[string]any), ind)
 		return
 	}
 	// a node with a uses somewhere below: render its own line with renderNode on a copy without children
@@ -780,6 +1141,7 @@ func renderAny(b *strings.Builder, n map[string]any, ind string) {
 	s := strings.TrimRight(hb.String(), "\n")
 	s = strings.TrimSuffix(s, "}")
 	b.WriteString(strings.TrimRight(s, " \n") + "\n")
+	renderScoped(b, n, ind+"  ")
 	for _, k := range carr(n, "kids") {
 		renderAny(b, k.(map[string]any), ind+"  ")
 	}
@@ -796,14 +1158,36 @@ func containsUses(n map[string]any) bool {
 	return false
 }
 
+// groupings scoped to a node (by its name): set by yusesTexts for the rendering of one case
+var scopedGroupings map[string][]map[string]any
+
 func renderGroupings(b *strings.Builder, gs []any) {
 	for _, g := range gs {
 		gm := g.(map[string]any)
+		if cstr(gm, "scope") != "" {
+			continue // written in the body of the node it is scoped to
+		}
 		b.WriteString("  grouping " + cstr(gm, "n") + " {\n")
+		if st := cstr(gm, "gstatus"); st != "" {
+			b.WriteString("    status " + st + ";\n")
+		}
+		if cbool(gm, "gdesc") {
+			b.WriteString("    description \"about the grouping\";\n    reference \"nowhere\";\n")
+		}
 		for _, k := range carr(gm, "kids") {
 			renderAny(b, k.(map[string]any), "    ")
 		}
 		b.WriteString("  }\n")
+	}
+}
+
+func renderScoped(b *strings.Builder, n map[string]any, ind string) {
+	for _, gm := range scopedGroupings[cstr(n, "n")] {
+		b.WriteString(ind + "grouping " + cstr(gm, "tn") + " {\n")
+		for _, k := range carr(gm, "kids") {
+			renderAny(b, k.(map[string]any), ind+"  ")
+		}
+		b.WriteString(ind + "}\n")
 	}
 }
 
@@ -829,6 +1213,12 @@ func renderAugments(b *strings.Builder, as []any) {
 }
 
 func yusesTexts(c Case) (factored []string, plain []string) {
+	scopedGroupings = map[string][]map[string]any{}
+	for _, g := range append(append([]any{}, carr(c, "mgroupings")...), carr(c, "bgroupings")...) {
+		if gm := g.(map[string]any); cstr(gm, "scope") != "" {
+			scopedGroupings[cstr(gm, "scope")] = append(scopedGroupings[cstr(gm, "scope")], gm)
+		}
+	}
 	var m, bm, am, pm strings.Builder
 	bm.WriteString("module b { namespace \"urn:b\"; prefix b;\n")
 	renderGroupings(&bm, carr(c, "bgroupings"))
@@ -860,7 +1250,7 @@ func stripNs(d *dnode, ns map[string]string) *dnode {
 	for _, f := range strings.Fields(d.attrs) {
 		switch {
 		case strings.HasPrefix(f, "ns="):
-			ns[d.name] = strings.TrimPrefix(f, "ns=")
+			ns[d.kind+" "+d.name] = strings.TrimPrefix(f, "ns=")
 		case strings.HasPrefix(f, "mod="):
 		case strings.HasPrefix(f, "when="):
 			// written on a uses / augment a `when` is evaluated at the parent, written in place at the node: the
@@ -905,7 +1295,8 @@ func runYUses(c Case) string {
 			a2[n.(string)] = true
 		}
 		bad := ""
-		for name, ns := range fns {
+		for key, ns := range fns {
+			name := key[strings.Index(key, " ")+1:]
 			want := "urn:m"
 			if a2[name] {
 				want = "urn:a2"
